@@ -21,7 +21,43 @@ import (
 	"github.com/dominant-strategies/go-quai/params"
 )
 
+// loc: the location of the node for the case being generated / run.  It is a property of the process
+// in production (vm.InitializePrecompiles fills package-level tables once); setLoc switches it the way a
+// fresh process of the other location would find it: the three tables are emptied and filled again.
 var loc = common.Location{0, 0}
+var locReady bool
+
+// the locations the generator draws from (none with byte prefix 0x01, see addrBytes)
+var otherLocs = [][]int{{0, 2}, {1, 0}, {2, 1}, {1, 2}}
+
+func setLoc(l []int) {
+	nl := common.Location{0, 0}
+	if len(l) == 2 {
+		nl = common.Location{byte(l[0]), byte(l[1])}
+	}
+	if locReady && nl.Equal(loc) {
+		return
+	}
+	for k := range vm.PrecompiledContracts {
+		delete(vm.PrecompiledContracts, k)
+	}
+	for k := range vm.PrecompiledAddresses {
+		delete(vm.PrecompiledAddresses, k)
+	}
+	for k := range vm.LockupContractAddresses {
+		delete(vm.LockupContractAddresses, k)
+	}
+	loc = nl
+	vm.InitializePrecompiles(loc)
+	locReady = true
+}
+
+func locOf(c *Case) []int {
+	if len(c.Loc) == 2 {
+		return c.Loc
+	}
+	return []int{0, 0}
+}
 
 const (
 	evOp = iota
@@ -197,6 +233,7 @@ type Obs struct {
 	ErrClass string   `json:"errclass"` // for the report only
 	Used     uint64   `json:"used"`
 	Failed   bool     `json:"failed"`
+	Fees     string   `json:"fees"` // ExecutionResult.QuaiFees
 	Post     []string `json:"post"` // balances of the universe after ApplyMessage
 	Fin      []string `json:"fin"`  // after Finalize (+ zero-address reset for an inbound ETX)
 	Sui      []int    `json:"sui"`
@@ -234,6 +271,8 @@ type Run struct {
 	rentGas   uint64
 	anomaly   string
 	panicked  string
+	aliased   string // a StateDB left behind by Copy() changed while the block went on on the copy
+	persist   [][2]string // (view, what): the copied / committed-and-reopened state differs from the executing one
 	selfdOps  int // SELFDESTRUCT opcodes executed (for the pre-fork credit bound)
 	sendOps   int // ETX / CONVERT opcodes executed
 	vmErr     error
@@ -275,9 +314,10 @@ var kQuaiSetting = common.HexToAddress("0x00640d82EF6552085e494DF2a2EAec18D82159
 
 // ---------- execution ----------
 
-func newState(c *Case, logger *log.Logger) *state.StateDB {
+func newState(c *Case, logger *log.Logger) (*state.StateDB, state.Database) {
 	db := rawdb.NewMemoryDatabase(logger)
-	statedb, err := state.New(types.EmptyRootHash, types.EmptyRootHash, big.NewInt(0), state.NewDatabase(db), state.NewDatabase(db), nil, loc, logger)
+	sdb := state.NewDatabase(db)
+	statedb, err := state.New(types.EmptyRootHash, types.EmptyRootHash, big.NewInt(0), sdb, state.NewDatabase(db), nil, loc, logger)
 	if err != nil {
 		panic(err)
 	}
@@ -302,7 +342,14 @@ func newState(c *Case, logger *log.Logger) *state.StateDB {
 		}
 	}
 	statedb.Finalize(false) // what was written becomes the committed ("original") state of the transaction
-	return statedb
+	return statedb, sdb
+}
+
+// kept: a StateDB the block left behind when it went on on a copy, with the balances it had then
+type kept struct {
+	db   *state.StateDB
+	at   int
+	bals []*big.Int
 }
 
 func blockCtx(c *Case) vm.BlockContext {
@@ -355,7 +402,7 @@ func accessListOf(c *Case, extra []common.InternalAddress) types.AccessList {
 	}
 	for i := 1; i <= 10; i++ {
 		b := make([]byte, 20)
-		b[19] = byte(i)
+		b[0], b[19] = loc.BytePrefix(), byte(i)
 		ad := common.BytesToAddress(b, loc)
 		seen[ad.Bytes20()] = true
 		al = append(al, types.AccessTuple{Address: ad})
@@ -422,9 +469,10 @@ func materialize(c *Case, m *Case) *Case {
 // (no Commit, no reload).  It returns the run of the last message (the case proper); the runs of the
 // earlier ones hang off it (prev) for the block-level model check and monitors.
 func execute(c *Case, extra []common.InternalAddress, logger *log.Logger) (r *Run) {
-	vm.InitializePrecompiles(loc)
-	statedb := newState(c, logger)
+	setLoc(c.Loc)
+	statedb, sdb := newState(c, logger)
 	blkState := statedb.Copy()
+	var left []kept
 	u := &univ{index: map[common.InternalAddress]int{}}
 	// universe: zero address, declared accounts, precompiles 1..9, lockup contract
 	u.idx(common.ZeroInternal(loc))
@@ -434,7 +482,7 @@ func execute(c *Case, extra []common.InternalAddress, logger *log.Logger) (r *Ru
 	}
 	for i := 1; i <= 10; i++ {
 		b := make([]byte, 20)
-		b[19] = byte(i)
+		b[0], b[19] = loc.BytePrefix(), byte(i)
 		ia, _ := internalOf(b)
 		u.idx(ia)
 	}
@@ -473,15 +521,101 @@ func execute(c *Case, extra []common.InternalAddress, logger *log.Logger) (r *Ru
 			statedb.RevertToSnapshot(snap)
 			gp = new(types.GasPool).AddGas(r.pool)
 		}
+		if !last {
+			switch c.Between {
+			case "reload":
+				// end of a block / restart: everything is committed and a new StateDB opened at the root; no
+				// state object, journal entry or cached deleted account survives
+				root, err := statedb.Commit(true)
+				if err != nil {
+					r.panicked = "StateDB.Commit between two messages: " + err.Error()
+					return r
+				}
+				reopened, err := state.New(root, types.EmptyRootHash, big.NewInt(0), sdb, state.NewDatabase(rawdb.NewMemoryDatabase(logger)), nil, loc, logger)
+				if err != nil {
+					r.panicked = "state.New at the committed root: " + err.Error()
+					return r
+				}
+				statedb = reopened
+				wrapped.StateDB = statedb
+			case "copy":
+				k := kept{db: statedb, at: i + 1}
+				for _, a := range u.universe {
+					k.bals = append(k.bals, new(big.Int).Set(statedb.GetBalance(a)))
+				}
+				left = append(left, k)
+				statedb = statedb.Copy()
+				wrapped.StateDB = statedb
+			}
+		}
 		if last {
 			r.prev = prev
 			for _, a := range u.universe {
 				r.blkPre = append(r.blkPre, new(big.Int).Set(blkState.GetBalance(a)))
 			}
+			// what the chain keeps: the state a Copy() of this StateDB shows, and the state a node reads after
+			// Commit and re-opening at the new root (next block / restart), must carry the balances the executing
+			// StateDB showed after the message - for every case, single messages included
+			if !r.obs.Invalid && r.panicked == "" {
+				r.persistence(statedb, sdb, logger)
+			}
+			// a StateDB the block was copied from is not touched by what ran on the copy
+			for _, k := range left {
+				for j, b := range k.bals {
+					if now := k.db.GetBalance(u.universe[j]); now.Cmp(b) != 0 && r.aliased == "" {
+						r.aliased = fmt.Sprintf("account #%d of the StateDB left behind after message %d went %s -> %s while the block ran on its Copy()", j, k.at, b, now)
+					}
+				}
+			}
 		}
 		prev = append(prev, r)
 	}
 	return r
+}
+
+// persistence compares the balances (and the payer's nonce) of the executing StateDB after the last
+// message with (1) StateDB.Copy() and (2) the state re-opened from the root Commit(true) returns.
+func (r *Run) persistence(statedb *state.StateDB, sdb state.Database, logger *log.Logger) {
+	defer func() {
+		if p := recover(); p != nil {
+			r.persist = append(r.persist, [2]string{"panic", fmt.Sprint("Copy / Commit / re-open panicked: ", p)})
+		}
+	}()
+	type view struct {
+		name string
+		db   *state.StateDB
+	}
+	var nonces []uint64
+	for _, a := range r.universe {
+		nonces = append(nonces, statedb.GetNonce(a))
+	}
+	views := []view{{"copy", statedb.Copy()}}
+	root, err := statedb.Commit(true)
+	if err != nil {
+		r.persist = append(r.persist, [2]string{"commit", "StateDB.Commit: " + err.Error()})
+		return
+	}
+	reopened, err := state.New(root, types.EmptyRootHash, big.NewInt(0), sdb, state.NewDatabase(rawdb.NewMemoryDatabase(logger)), nil, loc, logger)
+	if err != nil {
+		r.persist = append(r.persist, [2]string{"commit", "state.New at the committed root: " + err.Error()})
+		return
+	}
+	views = append(views, view{"reload", reopened})
+	for _, v := range views {
+		for j, a := range r.universe {
+			if j >= len(r.obs.Fin) {
+				break
+			}
+			if got := v.db.GetBalance(a).String(); got != r.obs.Fin[j] {
+				r.persist = append(r.persist, [2]string{v.name, fmt.Sprintf("account #%d holds %s after the message on the executing StateDB but %s in the state seen through %s", j, r.obs.Fin[j], got, v.name)})
+				break
+			}
+			if got := v.db.GetNonce(a); got != nonces[j] {
+				r.persist = append(r.persist, [2]string{v.name + "-nonce", fmt.Sprintf("account #%d has nonce %d on the executing StateDB but %d in the state seen through %s", j, nonces[j], got, v.name)})
+				break
+			}
+		}
+	}
 }
 
 // apply runs one message of the block on the shared state and fills in the run.
@@ -583,6 +717,10 @@ func (r *Run) apply(c *Case, statedb *state.StateDB, wrapped *logDB, preState *s
 	} else {
 		o.Used = res.UsedGas
 		o.Failed = res.Failed()
+		o.Fees = "0"
+		if res.QuaiFees != nil {
+			o.Fees = res.QuaiFees.String()
+		}
 		r.vmErr = res.Err
 		switch {
 		case res.Err == nil:
